@@ -101,10 +101,11 @@ pub fn remove_position(
     position_bucket(storage).remove(&hash);
 
     // the record carried the block of the trader's last action, which restriction mode needs
-    // for the rest of this block: keep it under the same key, with the names it belongs to
-    // (the key is a hash of the bare concatenation, which another vamm / trader pair can share)
+    // for the rest of this block: keep it, with the names it belongs to, under a key of its own
+    // (the position key is a hash of the bare concatenation, which another vamm / trader pair can
+    // share: a removal under that pair must not overwrite this marker)
     bucket(storage, KEY_LAST_REMOVAL).save(
-        &hash,
+        &removal_key(&position.vamm, &position.trader),
         &(
             block_height,
             position.vamm.to_string(),
@@ -113,14 +114,20 @@ pub fn remove_position(
     )
 }
 
-/// The block in which the trader's position on the vamm was last removed (closed or liquidated)
-pub fn read_last_removal_block(storage: &dyn Storage, vamm: &Addr, trader: &Addr) -> u64 {
+/// key of the removal marker: the vamm's length goes in first, so that no two pairs share a key
+fn removal_key(vamm: &Addr, trader: &Addr) -> Vec<u8> {
     let mut hasher = Sha3_256::new();
 
+    hasher.update((vamm.as_bytes().len() as u64).to_be_bytes());
     hasher.update(vamm.as_bytes());
     hasher.update(trader.as_bytes());
 
-    let hash = hasher.finalize();
+    hasher.finalize().to_vec()
+}
+
+/// The block in which the trader's position on the vamm was last removed (closed or liquidated)
+pub fn read_last_removal_block(storage: &dyn Storage, vamm: &Addr, trader: &Addr) -> u64 {
+    let hash = removal_key(vamm, trader);
 
     match bucket_read::<(u64, String, String)>(storage, KEY_LAST_REMOVAL).may_load(&hash) {
         Ok(Some((block, v, t))) if v == vamm.as_str() && t == trader.as_str() => block,
